@@ -53,7 +53,7 @@ func (a *Auth) ParseAuthorization(authStr string) (err error) {
 			return err
 		}
 
-		tmp := strings.Split(string(authInfo), ":")
+		tmp := strings.SplitN(string(authInfo), ":", 2) // 密码中允许包含':'
 		if len(tmp) != 2 {
 			return fmt.Errorf("invalid Authorization:%s", authStr)
 		}
